@@ -205,6 +205,12 @@ def image(truth, level, t0_ms=45296789, dt_ms=1, style=None, seed=0):
             r[SIGNAL_ACQ_US:SIGNAL_ACQ_US + 8] = struct.pack(">Q", (t % DAY_MS) * 1000 + 7)
         if style:
             _style_prefix(r, i, n_px, level, style, prng)
+            dates = style.get("dates", "normal")
+            if (dates == "filler-first" and i == 0) or (dates == "filler-some"
+                                                        and prng.random() < 0.3):
+                # placeholder date of a filler line (far outside the 1678-2262 range of
+                # datetime64[ns]); legal input, decoded consistently by the reader
+                r[36:48] = struct.pack(">III", prng.choice([9999, 9999, 1]), 1, 0)
         out.append(bytes(r) + raw[i].tobytes())
         extents.append((pos, pos + prefix, pos + reclen))
         pos += reclen
@@ -335,7 +341,7 @@ POLS = ["HH", "HV", "VH", "VV"]
 
 
 def gen_plan(rng, max_lines=40, max_pixels=32, max_images=8, level=None, big=False, large=0.03,
-             huge=0.012, n_images=None, giant=0.0):
+             huge=0.012, n_images=None, giant=0.0, one_pol_scans=False):
     level = level or rng.choice(["1.1", "1.5", "1.5", "3.1"])
     n_img = rng.choice([1, 1, 2, 2, 3, rng.randint(1, max_images)])
     if n_images is not None:
@@ -349,6 +355,13 @@ def gen_plan(rng, max_lines=40, max_pixels=32, max_images=8, level=None, big=Fal
     else:
         combos = [(pol, None) for pol in POLS]
     rng.shuffle(combos)
+    if one_pol_scans:
+        # a ScanSAR product whose image files are the scans of ONE polarisation (names that
+        # differ only after the last dot / dash of the product id)
+        pol = rng.choice(POLS)
+        method = rng.choice("BF")
+        combos = [(pol, f"{method}{k}") for k in rng.sample(range(1, 6), max(n_img, 2))]
+        n_img = len(combos)
     combos = combos[:n_img]
     same_shape = rng.random() < 0.6
 
@@ -414,6 +427,7 @@ def gen_plan(rng, max_lines=40, max_pixels=32, max_images=8, level=None, big=Fal
         "fill": rng.choice(["zero", "zero", "all-data", "consistent", "consistent", "inconsistent"]),
         "flags": rng.choice(["constant", "constant", "first-line", "last-line", "random"]),
         "numeric": rng.choice(["zero", "varying", "varying"]),
+        "dates": rng.choice(["normal"] * 5 + ["filler-first", "filler-some"]),
     }
     # acquisition time base: mostly mid-day, sometimes crossing midnight inside the image
     n_max = max(im["lines"] for im in images)
